@@ -41,30 +41,30 @@ def AOCtlS {N : NumOps} (D : List DName) : ARel N (Option (Ctl N)) := fun β c c
 
 def SoundS (Q : QRel) (cx : Cx) (D : List DName) (x y : Stmt) : Prop :=
   ∀ (N : NumOps) (call : CallFn N) (ρ : ExtOracle N) (k : Nat) (env env' : Env N) (σ σ' : State N) (β : Inj N),
-    POK Q cx call ρ → SRel Q cx β σ σ' → EnvOK β D env env' →
+    POK Q cx call ρ k → SRel Q cx β σ σ' → EnvOK β D env env' →
       RRel Q cx β (ACtlS D) (execS call ρ k env x σ) (execS call ρ k env' y σ')
 def SoundSs (Q : QRel) (cx : Cx) (D : List DName) (x y : List Stmt) (D' : List DName) : Prop :=
   DSub D D' ∧
   ∀ (N : NumOps) (call : CallFn N) (ρ : ExtOracle N) (k : Nat) (env env' : Env N) (σ σ' : State N) (β : Inj N),
-    POK Q cx call ρ → SRel Q cx β σ σ' → EnvOK β D env env' →
+    POK Q cx call ρ k → SRel Q cx β σ σ' → EnvOK β D env env' →
       RRel Q cx β (ACtl D') (execSs call ρ k env x σ) (execSs call ρ k env' y σ')
 def SoundBranches (Q : QRel) (cx : Cx) (D : List DName) (x y : List (Expr × Block)) : Prop :=
   ∀ (N : NumOps) (call : CallFn N) (ρ : ExtOracle N) (k : Nat) (env env' : Env N) (σ σ' : State N) (β : Inj N),
-    POK Q cx call ρ → SRel Q cx β σ σ' → EnvOK β D env env' →
+    POK Q cx call ρ k → SRel Q cx β σ σ' → EnvOK β D env env' →
       RRel Q cx β (AOCtlS D) (execBranches call ρ k env x σ) (execBranches call ρ k env' y σ')
 def SoundL (Q : QRel) (cx : Cx) (D : List DName) (x y : Last) : Prop :=
   ∀ (N : NumOps) (call : CallFn N) (ρ : ExtOracle N) (k : Nat) (env env' : Env N) (σ σ' : State N) (β : Inj N),
-    POK Q cx call ρ → SRel Q cx β σ σ' → EnvOK β D env env' →
+    POK Q cx call ρ k → SRel Q cx β σ σ' → EnvOK β D env env' →
       RRel Q cx β (ACtl D) (execLast call ρ k env x σ) (execLast call ρ k env' y σ')
 def SoundB (Q : QRel) (cx : Cx) (D : List DName) (x y : Block) (D' : List DName) : Prop :=
   DSub D D' ∧
   ∀ (N : NumOps) (call : CallFn N) (ρ : ExtOracle N) (k : Nat) (env env' : Env N) (σ σ' : State N) (β : Inj N),
-    POK Q cx call ρ → SRel Q cx β σ σ' → EnvOK β D env env' →
+    POK Q cx call ρ k → SRel Q cx β σ σ' → EnvOK β D env env' →
       RRel Q cx β (ACtl D') (execB call ρ k env x σ) (execB call ρ k env' y σ')
 /-- one iteration of `repeat b until c` -/
 def SoundRep (Q : QRel) (cx : Cx) (D : List DName) (b : Block) (c : Expr) (b' : Block) (c' : Expr) : Prop :=
   ∀ (N : NumOps) (call : CallFn N) (ρ : ExtOracle N) (k : Nat) (env env' : Env N) (σ σ' : State N) (β : Inj N),
-    POK Q cx call ρ → SRel Q cx β σ σ' → EnvOK β D env env' →
+    POK Q cx call ρ k → SRel Q cx β σ σ' → EnvOK β D env env' →
       RRel Q cx β (AOCtlS D) (repeatStep call ρ k env (fun e s => evalE call ρ k e c s) b σ)
         (repeatStep call ρ k env' (fun e s => evalE call ρ k e c' s) b' σ')
 
@@ -80,15 +80,21 @@ theorem ACtlS.shape {N : NumOps} {β : Inj N} {c c' : Ctl N} (h : ACtlS D β c c
 theorem ACtl.shape {N : NumOps} {β : Inj N} {c c' : Ctl N} (h : ACtl D β c c') : CtlShape β c c' := by
   cases c <;> cases c' <;> simp only [ACtl, CtlShape] at h ⊢ <;> exact h
 
-theorem SoundS.step {a m b} (h : EqS a m) (ih : SoundS Q cx D m b) : SoundS Q cx D a b := by
+theorem SoundS.step {a m b} (h : LeS cx.upto a m) (ih : SoundS Q cx D m b) : SoundS Q cx D a b := by
   intro N call ρ k env env' σ σ' β hp hs he
-  rw [← h N call ρ k env σ]; exact ih N call ρ k env env' σ σ' β hp hs he
-theorem SoundL.step {a m b} (h : EqL a m) (ih : SoundL Q cx D m b) : SoundL Q cx D a b := by
+  cases h N call ρ k env σ with
+  | inl h => rw [h.2]; exact RRel.timeout_left h.1 _
+  | inr h => rw [← h]; exact ih N call ρ k env env' σ σ' β hp hs he
+theorem SoundL.step {a m b} (h : LeL cx.upto a m) (ih : SoundL Q cx D m b) : SoundL Q cx D a b := by
   intro N call ρ k env env' σ σ' β hp hs he
-  rw [← h N call ρ k env σ]; exact ih N call ρ k env env' σ σ' β hp hs he
-theorem SoundB.step {a m b D'} (h : EqB a m) (ih : SoundB Q cx D m b D') : SoundB Q cx D a b D' :=
+  cases h N call ρ k env σ with
+  | inl h => rw [h.2]; exact RRel.timeout_left h.1 _
+  | inr h => rw [← h]; exact ih N call ρ k env env' σ σ' β hp hs he
+theorem SoundB.step {a m b D'} (h : LeB cx.upto a m) (ih : SoundB Q cx D m b D') : SoundB Q cx D a b D' :=
   ⟨ih.1, fun N call ρ k env env' σ σ' β hp hs he => by
-    rw [← h N call ρ k env σ]; exact ih.2 N call ρ k env env' σ σ' β hp hs he⟩
+    cases h N call ρ k env σ with
+    | inl h => rw [h.2]; exact RRel.timeout_left h.1 _
+    | inr h => rw [← h]; exact ih.2 N call ρ k env env' σ σ' β hp hs he⟩
 
 /-! ### statement lists, last statements, blocks -/
 
